@@ -167,6 +167,15 @@ def gen_cases(rng, tier):
         cases.append({"params": params, "full": _j(full), "surplus": _jl(surplus), "extra": _j(extra), "mode": mode, "tmpl": tmpl, "fmt": fmt,
                       "full2": _j(g2) if g2 is not None else None, "given": rng.random() < 0.9,
                       "surplus2": _jl(surplus2) if surplus2 is not None else None, "ctx_left_by_exception": rng.random() < 0.25})
+    # a `**` parameter whose template field carries a format function or is the whole template, called with surplus keywords
+    # in every form (no positional argument at all included)
+    for i in range(24):
+        params = [{"name": "a", "kind": "PK", "default": ["<nodefault>", "z", 0][i % 3]}, {"name": "kw", "kind": "VK", "default": None}]
+        fmt = [None, "hash", "hash", "lower"][i % 4]
+        extra = [{"x": "q"}, {"x": 1, "y": "a"}, {"w": ""}][i % 3]
+        cases.append({"params": params, "full": _j({"a": ["a", 7][i % 2]}), "surplus": [], "extra": _j(extra), "mode": "explicit",
+                      "tmpl": ["k", "a", "__kwargs__"] if i % 2 else ["k", "__kwargs__"], "fmt": fmt,
+                      "full2": _j({"a": ["z", 1][i % 2]}) if i % 2 else None, "given": True, "surplus2": None, "ctx_left_by_exception": False})
     return cases
 
 
